@@ -492,8 +492,12 @@ def sys_errors():
             return base + [['raise', 'chain']]
         if kind == 'raise_to':              # TimeoutError raised by the handler's own code (finding G10, repaired)
             return base + [['s', 1], ['raise', 'to']]
+        if kind == 'retexc_to':             # a TimeoutError / CancelledError *object* returned as the handler's value
+            return base + [['s', 1], ['ret', 'exc_to']]
+        if kind == 'retexc_ce':
+            return base + [['ret', 'exc_ce']]
         return base + [['s', 2], ['raise', 'rt']]
-    for k1, k2, k3, sync2, child_kind, fw, par in itertools.product(kinds + ['raise_ce', 'raise_ce_after_sleep', 'raise_chain', 'raise_to'], kinds + ['raise_ce', 'raise_chain'], ['ok', 'raise'], [False, True],
+    for k1, k2, k3, sync2, child_kind, fw, par in itertools.product(kinds + ['raise_ce', 'raise_ce_after_sleep', 'raise_chain', 'raise_to', 'retexc_to', 'retexc_ce'], kinds + ['raise_ce', 'raise_chain'], ['ok', 'raise'], [False, True],
                                                                     ['none', 'ok', 'raise', 'raise_ce', 'raise_chain'], [False, True], [False, True]):
         if sync2 and k2 == 'raise_after_sleep':
             continue
